@@ -66,7 +66,7 @@ def seed_selftest(cid):
     jobs = []
     for m in sorted(glob.glob(os.path.join(ROOT, "seeded", "*", "meta.json")) + glob.glob(os.path.join(ROOT, "selftest", "*", "meta.json"))):
         j = json.load(open(m))
-        if cid in j.get("caught_by", []): jobs.append((cid, os.path.basename(os.path.dirname(m)), os.path.join(os.path.dirname(m), "patch.diff")))
+        if cid in j.get("caught_by", []): jobs.append((cid, os.path.basename(os.path.dirname(m)), next(p_ for p_ in (os.path.join(os.path.dirname(m), "patch.current.diff"), os.path.join(os.path.dirname(m), "patch.diff")) if os.path.exists(p_))))   # patch.current.diff = the same change rebased onto the current tree (after a later fix: commit touched the same lines)
     res = {"caught": [], "missed": [], "skipped": [], "error": []}
     with cf.ThreadPoolExecutor(max_workers=min(8, max(1, len(jobs)))) as ex:
         for seed, st, info in ex.map(_seed_one, jobs):
